@@ -83,7 +83,6 @@ def opRun (j : Json) : Except String Json := do
   let fl ← match ← (← j.getObjVal? "flavor").getStr? with
     | "sync" => pure Flavor.sync | "async" => pure Flavor.async | _ => throw "flavor"
   let a ← j.getObjVal? "arg"
-  let truthy := (a.getObjVal? "truthy" >>= Json.getBool?).toOption.getD true
   let arg : Arg String String ← match ← (← a.getObjVal? "kind").getStr? with
     | "omitted" => pure .omitted
     | "dict" => pure (.dict (← (← a.getObjVal? "msg").getStr?))
@@ -92,7 +91,7 @@ def opRun (j : Json) : Except String Json := do
     | _ => throw "arg kind"
   let replies ← (← getArrL j "replies").mapM fun v => v.getStr?
   let empty := (j.getObjVal? "empty" >>= Json.getStr?).toOption.getD "{}"   -- canonical text of the empty request message
-  let ops : MsgOps String String := { empty := empty, ofDict := id, truthy := fun _ => truthy }
+  let ops : MsgOps String String := { empty := empty, ofDict := id }
   match runCall (ρ := String) pinnedTables n ops fl svc m arg replies with
   | .error e => pure (Json.mkObj [("error", errJson e)])
   | .ok t =>
